@@ -9,6 +9,7 @@ From SU.Spec Require Import RibbonSpec.
 From SU.Proofs Require Import RibbonProofs RibbonValueProofs.
 From SU.Proofs Require Import RibbonExtraProofs.
 From SU.Proofs Require Import RibbonKillers.
+From SU.Proofs Require Import RibbonRetainProofs.
 Open Scope Z_scope.
 
 (** the ring buffer yields the last [cap] written values, oldest first *)
@@ -225,6 +226,89 @@ Theorem C16_value_before_first_press : forall cap fs sp dr pu samples,
   rb_val (polls r0 samples) = f_0 /\ ribbon_value (polls r0 samples) = ribbon_value r0.
 Proof. exact value_before_first_press. Qed.
 
+(** the configuration (boundary, error constant, capacity, settling and finger-lift counts) never changes after construction *)
+Open Scope R_scope.
+Theorem C16_config_constant : forall (r0 : ribbon) (h : list rop),
+  rb_boundary (rrun r0 h) = rb_boundary r0 /\ rb_err (rrun r0 h) = rb_err r0 /\
+  rb_cap (rrun r0 h) = rb_cap r0 /\ rb_ignore (rrun r0 h) = rb_ignore r0 /\
+  rb_discard (rrun r0 h) = rb_discard r0.
+Proof. exact config_constant. Qed.
+Close Scope R_scope.
+
+(** retention stated for the public value() itself, over histories with edge polls *)
+Open Scope R_scope.
+Theorem C16_value_retained : forall cap fs sp dr pu (h : list rop) (o : rop),
+  let r0 := ribbon_new cap fs sp dr pu in
+  rb_pressing (rrun r0 (h ++ [o])) = false ->
+  ribbon_value (rrun r0 (h ++ [o])) = ribbon_value (rrun r0 h).
+Proof. exact ribbon_value_retained. Qed.
+Close Scope R_scope.
+
+(** the last value is retained bit for bit over any stretch in which no press is reported *)
+Open Scope R_scope.
+Theorem C16_value_retained_after_release : forall cap fs sp dr pu (h1 h2 : list rop),
+  let r0 := ribbon_new cap fs sp dr pu in
+  (forall n, (0 < n <= length h2)%nat -> rb_pressing (rrun r0 (h1 ++ firstn n h2)) = false) ->
+  rb_val (rrun r0 (h1 ++ h2)) = rb_val (rrun r0 h1) /\
+  ribbon_value (rrun r0 (h1 ++ h2)) = ribbon_value (rrun r0 h1).
+Proof. exact value_retained_after_release. Qed.
+Close Scope R_scope.
+
+(** the rescale boundary is at least 1/(K+1) - 2^-22 when the dropper is at most K times the softpot *)
+Open Scope R_scope.
+Theorem C16_boundary_lower_bound : forall cap fs (sp dr pu : f32) (K : R),
+  fin sp -> fin dr -> 1 <= R32 sp -> 0 <= R32 dr <= K * R32 sp ->
+  let b := rb_boundary (ribbon_new cap fs sp dr pu) in
+  fin b /\ / (K + 1) - / 4194304 <= R32 b <= 1.
+Proof. exact boundary_lower_bound. Qed.
+Close Scope R_scope.
+
+(** a relative form of that bound is false (three roundings) *)
+Open Scope R_scope.
+Theorem C16_boundary_relative_bound_false :
+  let sp := of_bits 1065353217 in
+  let dr := of_bits 1091567617 in
+  fin sp /\ fin dr /\ 1 <= R32 sp /\ 0 <= R32 dr <= 9 * R32 sp /\
+  forall cap fs pu,
+    R32 (rb_boundary (ribbon_new cap fs sp dr pu)) < / (9 + 1) * (1 - / 4194304).
+Proof. exact boundary_relative_bound_false. Qed.
+Close Scope R_scope.
+
+(** between, for value(), with an explicit tolerance for dropper <= softpot: 4.0001 tau *)
+Open Scope R_scope.
+Theorem C16_between_f32_realistic : forall cap fs sp dr pu samples lo hi,
+  let r0 := ribbon_new cap fs sp dr pu in
+  config_ok r0 ->
+  fin sp -> fin dr -> 1 <= R32 sp -> 0 <= R32 dr <= R32 sp ->
+  Forall sample_ok samples ->
+  rb_pressing (polls r0 samples) = true ->
+  (forall x, In x (contributing r0 samples) -> (0 <= lo <= R32 x) /\ (R32 x <= hi <= 1)) ->
+  let e := R32 (rb_err r0) in
+  let b := R32 (rb_boundary r0) in
+  let v := R32 (ribbon_value (polls r0 samples)) in
+  49999 / 100000 <= b <= 1 /\
+  full_scale b (corr_R e lo) - 40001 / 10000 * tau r0 <= v
+    <= full_scale b (corr_R e hi) + 40001 / 10000 * tau r0 /\
+  corr_R e lo - 2 * tau r0 <= v.
+Proof. exact C16_between_f32_realistic. Qed.
+Close Scope R_scope.
+
+(** monotone, likewise: 4.2501 tau *)
+Open Scope R_scope.
+Theorem C16_monotone_f32_realistic : forall cap fs sp dr pu samples1 samples2 W1 W2 x y,
+  let r0 := ribbon_new cap fs sp dr pu in
+  config_ok r0 ->
+  fin sp -> fin dr -> 1 <= R32 sp -> 0 <= R32 dr <= R32 sp ->
+  Forall sample_ok samples1 -> Forall sample_ok samples2 ->
+  rb_pressing (polls r0 samples1) = true -> rb_pressing (polls r0 samples2) = true ->
+  contributing r0 samples1 = W1 ++ x :: W2 ->
+  contributing r0 samples2 = W1 ++ y :: W2 ->
+  R32 x <= R32 y ->
+  R32 (ribbon_value (polls r0 samples1)) - (40001 / 10000 * tau r0 + tau r0 / 4)
+  <= R32 (ribbon_value (polls r0 samples2)).
+Proof. exact C16_monotone_f32_realistic. Qed.
+Close Scope R_scope.
+
 Print Assumptions C16_histbuf.
 Print Assumptions C16_value_window.
 Print Assumptions C16_retained.
@@ -245,3 +329,10 @@ Print Assumptions C16_monotone_f32.
 Print Assumptions C16_contributing_count.
 Print Assumptions C16_new_state.
 Print Assumptions C16_value_before_first_press.
+Print Assumptions C16_config_constant.
+Print Assumptions C16_value_retained.
+Print Assumptions C16_value_retained_after_release.
+Print Assumptions C16_boundary_lower_bound.
+Print Assumptions C16_boundary_relative_bound_false.
+Print Assumptions C16_between_f32_realistic.
+Print Assumptions C16_monotone_f32_realistic.
